@@ -456,6 +456,11 @@ def step (e : Env) (line : String) : Env × String :=
     | none, _, _ => unbound
     | some f, some sd, some ys => (e, " ".intercalate (ys.map fun y => showVal ((ecdf f).limit sd y)))
     | _, _, _ => bad
+  | "ecdfs" :: r :: ys =>
+    match e.get r, allSome (ys.map parseRat) with
+    | none, _ => unbound
+    | some f, some ys => (e, " ".intercalate (ys.map fun y => showVal ((ecdf f).sample y)))
+    | _, _ => bad
   | "perc" :: r :: ps =>
     match e.get r, allSome (ps.map parseRat) with
     | none, _ => unbound
